@@ -23,35 +23,8 @@ func checkC11(e *Env) {
 	class, length, limit := addInfoTablesQuiet(e)
 	headTablesAgree(e, lowest, dec, class, length, limit)
 
-	em := e.fn("internal/cbor.(*Encoder).EncodeMap")
+	encodeMapObligations(e)
 	o := gate.Outcome{Kind: gate.ErrNil, Idx: 0}
-	e.requireGates("GATE", em, o, noCfg,
-		gate.CallOK("M.header", "(*cbor.Encoder).encodeMapHeader", "param:e", "len(param:mes)"),
-		gate.CallInstr("M.copy", "builtin:copy", tEntries, "param:mes"),
-		gate.CallInstr("M.sort", "sort.Slice", tEntries, "closure:(*cbor.Encoder).EncodeMap$1"),
-	)
-	e.callOrder("ORDER", "copy-before-sort", em, gate.CallInstr("", "builtin:copy", tEntries, "param:mes"), gate.CallInstr("", "sort.Slice", tEntries, "*"), "the entries are copied before they are sorted")
-	cmp := e.fn("internal/cbor.(*Encoder).EncodeMap$1")
-	e.requireResult("RESULT", cmp, gate.Outcome{Kind: gate.AnyReturn}, 0,
-		"(call:bytes.Compare(call:(*cbor.MapEntryEncoder).KeyBytes(free:entries[param:i]),call:(*cbor.MapEntryEncoder).KeyBytes(free:entries[param:j])) < const:0)",
-		"bytewise order of the encoded keys (strictly less)")
-	e.requireResult("RESULT", e.fn("internal/cbor.(*MapEntryEncoder).KeyBytes"), gate.Outcome{Kind: gate.AnyReturn}, 0,
-		"call:(*bytes.Buffer).Bytes(param:e.keyBuf)", "the encoded key buffer")
-	tKey := "call:(*cbor.MapEntryEncoder).KeyBytes(" + tEntries + "[rangeidx])"
-	tLast := "phi(" + tKey + "|const:nil)"
-	forAllIterations(e, "FORALL", em, tEntries, noCfg,
-		either("M.nodup", "first entry, or key differs from the previous key",
-			gate.Cmp("", tLast, token.EQL, "const:nil"),
-			gate.CallBool("", "bytes.Equal", false, tLast, tKey)))
-	forAllIterations(e, "FORALL", em, tEntries, noCfg, gate.CallOK("M.key", "io.Copy", "param:e.w", tEntries+"[rangeidx].keyBuf"))
-	forAllIterations(e, "FORALL", em, tEntries, noCfg, gate.CallOK("M.value", "io.Copy", "param:e.w", tEntries+"[rangeidx].valueBuf"))
-	e.callOrder("ORDER", "key-before-value", em, gate.CallInstr("", "io.Copy", "param:e.w", "*.keyBuf"), gate.CallInstr("", "io.Copy", "param:e.w", "*.valueBuf"), "each key is emitted before its value")
-	e.dominatedByGates("GATE", em, noCfg, "io.Copy", []string{"param:e.w", "*.keyBuf"},
-		either("M.nodup-before-emit", "first entry, or key differs from the previous key",
-			gate.Cmp("", tLast, token.EQL, "const:nil"),
-			gate.CallBool("", "bytes.Equal", false, tLast, tKey)))
-	// the duplicate edge returns ErrDuplicatedKey
-	dupReturnsError(e, em)
 
 	ets := e.fn("internal/cbor.(*Encoder).EncodeTextString")
 	e.requireGates("GATE", ets, o, noCfg,
@@ -135,4 +108,39 @@ func dupReturnsError(e *Env, em *ssa.Function) {
 		}
 	}
 	e.R.Fail("GATE", load.FuncName(em)+":dup-is-error", e.P.Pos(em.Pos()), "no adjacent-duplicate test found")
+}
+
+// encodeMapObligations: EncodeMap emits a sorted, duplicate-free copy of its
+// entries (shared by C11 and C04).
+func encodeMapObligations(e *Env) {
+	em := e.fn("internal/cbor.(*Encoder).EncodeMap")
+	o := gate.Outcome{Kind: gate.ErrNil, Idx: 0}
+	e.requireGates("GATE", em, o, noCfg,
+		gate.CallOK("M.header", "(*cbor.Encoder).encodeMapHeader", "param:e", "len(param:mes)"),
+		gate.CallInstr("M.copy", "builtin:copy", tEntries, "param:mes"),
+		gate.CallInstr("M.sort", "sort.Slice", tEntries, "closure:(*cbor.Encoder).EncodeMap$1"),
+	)
+	e.callOrder("ORDER", "copy-before-sort", em, gate.CallInstr("", "builtin:copy", tEntries, "param:mes"), gate.CallInstr("", "sort.Slice", tEntries, "*"), "the entries are copied before they are sorted")
+	cmp := e.fn("internal/cbor.(*Encoder).EncodeMap$1")
+	e.requireResult("RESULT", cmp, gate.Outcome{Kind: gate.AnyReturn}, 0,
+		"(call:bytes.Compare(call:(*cbor.MapEntryEncoder).KeyBytes(free:entries[param:i]),call:(*cbor.MapEntryEncoder).KeyBytes(free:entries[param:j])) < const:0)",
+		"bytewise order of the encoded keys (strictly less)")
+	e.requireResult("RESULT", e.fn("internal/cbor.(*MapEntryEncoder).KeyBytes"), gate.Outcome{Kind: gate.AnyReturn}, 0,
+		"call:(*bytes.Buffer).Bytes(param:e.keyBuf)", "the encoded key buffer")
+	tKey := "call:(*cbor.MapEntryEncoder).KeyBytes(" + tEntries + "[rangeidx])"
+	tLast := "phi(" + tKey + "|const:nil)"
+	forAllIterations(e, "FORALL", em, tEntries, noCfg,
+		either("M.nodup", "first entry, or key differs from the previous key",
+			gate.Cmp("", tLast, token.EQL, "const:nil"),
+			gate.CallBool("", "bytes.Equal", false, tLast, tKey)))
+	forAllIterations(e, "FORALL", em, tEntries, noCfg, gate.CallOK("M.key", "io.Copy", "param:e.w", tEntries+"[rangeidx].keyBuf"))
+	forAllIterations(e, "FORALL", em, tEntries, noCfg, gate.CallOK("M.value", "io.Copy", "param:e.w", tEntries+"[rangeidx].valueBuf"))
+	e.callOrder("ORDER", "key-before-value", em, gate.CallInstr("", "io.Copy", "param:e.w", "*.keyBuf"), gate.CallInstr("", "io.Copy", "param:e.w", "*.valueBuf"), "each key is emitted before its value")
+	e.dominatedByGates("GATE", em, noCfg, "io.Copy", []string{"param:e.w", "*.keyBuf"},
+		either("M.nodup-before-emit", "first entry, or key differs from the previous key",
+			gate.Cmp("", tLast, token.EQL, "const:nil"),
+			gate.CallBool("", "bytes.Equal", false, tLast, tKey)))
+	// the duplicate edge returns ErrDuplicatedKey
+	dupReturnsError(e, em)
+
 }
